@@ -111,6 +111,7 @@ fn main() {
             "slot" => suites::slot::replay(&body),
             "shape" => suites::shape::replay(&body),
             "parse" => suites::parse::replay(&body),
+            "grp" => suites::group::replay(&body),
             _ => panic!("unknown suite"),
         };
         ctx.emit(c);
@@ -120,6 +121,7 @@ fn main() {
             "slot" => suites::slot::run(&mut ctx),
             "shape" => suites::shape::run(&mut ctx),
             "parse" => suites::parse::run(&mut ctx),
+            "grp" => suites::group::run(&mut ctx),
             _ => panic!("unknown suite"),
         }
     }
